@@ -25,6 +25,8 @@ pub struct Env {
     pub funcs: Vec<FSig>,
     pub rulesets: Vec<Name>,
     pub globals: Vec<(Name, Name)>,
+    /// rules currently installed (popped with the environment): the valid command that declared them
+    pub rules: Vec<Cmd>,
 }
 
 impl Env {
@@ -221,6 +223,14 @@ impl Gen {
         Some(Cmd::Rule(self.next_rule - 1, rs, body, head))
     }
 
+    /// a named rewrite / birewrite over constructors (link-only: not in the Gallina model)
+    pub fn gen_rewrite(&mut self, r: &mut Rng) -> Option<Cmd> {
+        let (lhs, rhs, bi) = rewrite_sides(&self.env, r, &mut self.next, None)?;
+        let rs = if !self.env.rulesets.is_empty() && r.chance(1, 2) { Some(*r.pick(&self.env.rulesets)) } else { None };
+        self.next_rule += 1;
+        Some(Cmd::Rewrite { id: self.next_rule - 1, rs, lhs, rhs, bi })
+    }
+
     /// apply a (valid, accepted) declaration to the generator's environment
     pub fn apply(&mut self, c: &Cmd) {
         let env = &mut self.env;
@@ -237,6 +247,7 @@ impl Gen {
             Cmd::Constructor(n, i, o) => env.funcs.push(FSig { name: *n, ctor: true, rel: false, ins: i.clone(), out: *o }),
             Cmd::Relation(n, i) => env.funcs.push(FSig { name: *n, ctor: true, rel: true, ins: i.clone(), out: *n }),
             Cmd::Ruleset(n) => env.rulesets.push(*n),
+            Cmd::Rule(..) | Cmd::Rewrite { .. } => env.rules.push(c.clone()),
             Cmd::Push => {
                 let e = env.clone();
                 self.stack.push(e)
@@ -305,8 +316,10 @@ impl Gen {
                 } else {
                     Some(Cmd::SortPre(n, Presort::Map, vec![I64, I64]))
                 }
-            } else if k < 56 {
+            } else if k < 53 {
                 self.gen_rule(r)
+            } else if k < 56 {
+                self.gen_rewrite(r)
             } else if k < 76 {
                 // top-level action
                 let env = &self.env;
@@ -412,6 +425,121 @@ impl Gen {
     }
 }
 
+/// sides of a valid rewrite: lhs = (c x..), rhs built from the same variables (birewrite: exactly the
+/// same variables) or ground; `avoid`: an rhs that must not be produced again
+pub fn rewrite_sides(env: &Env, r: &mut Rng, next: &mut usize, avoid: Option<(&Expr, bool)>) -> Option<(Expr, Expr, bool)> {
+    let ctors: Vec<&FSig> = env.funcs.iter().filter(|f| f.ctor && !f.rel && env.kind(f.out) == Some(SKind::Eq)).collect();
+    if ctors.is_empty() {
+        return None;
+    }
+    for _ in 0..8 {
+        let c = ctors[r.below(ctors.len())];
+        let vars: Vec<Name> = c
+            .ins
+            .iter()
+            .map(|_| {
+                *next += 1;
+                Name::U(*next - 1)
+            })
+            .collect();
+        let lhs = Expr::Call(c.name, vars.iter().map(|v| Expr::Var(*v)).collect());
+        let want_bi = match avoid {
+            Some((_, b)) => b,
+            None => r.chance(1, 3),
+        };
+        // candidates with the same input sorts (so that both directions bind every variable)
+        let same: Vec<&&FSig> = ctors.iter().filter(|d| d.out == c.out && d.ins == c.ins).collect();
+        let rhs = if want_bi || r.chance(1, 2) {
+            let d = same[r.below(same.len())];
+            let mut vs: Vec<Expr> = vars.iter().map(|v| Expr::Var(*v)).collect();
+            // permute variables of equal sort
+            if vs.len() == 2 && c.ins[0] == c.ins[1] && r.chance(1, 2) {
+                vs.swap(0, 1);
+            }
+            Expr::Call(d.name, vs)
+        } else {
+            match env.ground(r, c.out, 1) {
+                Some(t) => t,
+                None => continue,
+            }
+        };
+        if let Some((a, _)) = avoid {
+            if *a == rhs {
+                continue;
+            }
+        }
+        if rhs == lhs && !want_bi {
+            continue;
+        }
+        return Some((lhs, rhs, want_bi));
+    }
+    None
+}
+
+/// ground facts that make `body` match at least once (one ground term per variable)
+fn instantiate_body(env: &Env, r: &mut Rng, body: &[Fact]) -> Option<Vec<Cmd>> {
+    let mut asg: Vec<(Name, Expr)> = Vec::new();
+    let mut out = Vec::new();
+    let get = |asg: &Vec<(Name, Expr)>, v: Name| asg.iter().find(|(n, _)| *n == v).map(|(_, e)| e.clone());
+    for f in body {
+        let (outv, call) = match f {
+            Fact::Eq(Expr::Var(v), c @ Expr::Call(..)) => (Some(*v), c),
+            Fact::Holds(c @ Expr::Call(..)) => (None, c),
+            _ => return None,
+        };
+        let Expr::Call(fname, args) = call else { return None };
+        let sig = env.funcs.iter().find(|g| g.name == *fname)?;
+        let mut gargs = Vec::new();
+        for (a, s) in args.iter().zip(sig.ins.iter()) {
+            match a {
+                Expr::Var(v) => {
+                    if let Some((_, gs)) = env.globals.iter().find(|(g, _)| g == v) {
+                        let _ = gs;
+                        gargs.push(Expr::Var(*v));
+                    } else if let Some(e) = get(&asg, *v) {
+                        gargs.push(e);
+                    } else {
+                        let e = env.ground(r, *s, 1)?;
+                        asg.push((*v, e.clone()));
+                        gargs.push(e);
+                    }
+                }
+                other => gargs.push(other.clone()),
+            }
+        }
+        let gcall = Expr::Call(*fname, gargs.clone());
+        if sig.ctor {
+            out.push(Cmd::Act(Action::Do(gcall.clone())));
+            if let Some(v) = outv {
+                if get(&asg, v).is_none() {
+                    asg.push((v, gcall));
+                } else {
+                    return None;
+                }
+            }
+        } else {
+            let v = outv?;
+            let val = match get(&asg, v) {
+                Some(e) => e,
+                None => {
+                    let e = env.ground(r, sig.out, 1)?;
+                    asg.push((v, e.clone()));
+                    e
+                }
+            };
+            out.push(Cmd::Act(Action::Set(*fname, gargs, val)));
+        }
+    }
+    Some(out)
+}
+
+fn ground_pattern(env: &Env, r: &mut Rng, lhs: &Expr) -> Option<Cmd> {
+    let Expr::Call(c, args) = lhs else { return None };
+    let sig = env.funcs.iter().find(|g| g.name == *c)?;
+    let _ = args;
+    Some(Cmd::Act(Action::Do(Expr::Call(*c, env.ground_args(r, sig, 1)?))))
+}
+
 pub struct Mutation {
     pub class: &'static str,
     pub sub: &'static str,
@@ -437,6 +565,8 @@ pub const CLASSES: &[&str] = &[
     "ctor-non-eq-output",
     "unknown-name",
     "shadow-decl",
+    "dup-rule-name",
+    "dup-rule-name",
 ];
 
 /// Known-finding key by mutation sub-class (None: must be clean).
@@ -914,6 +1044,240 @@ pub fn mutate(env: &Env, class: &'static str, r: &mut Rng, m: &mut usize, rule_i
                     mk("shadow-decl/ruleset-vs-function", Cmd::Ruleset(g.name), vec![Cmd::PrintSize(g.name), Cmd::Run(Some(g.name), 1)])
                 }
             }
+        }
+        "dup-rule-name" => {
+            // a rule / rewrite / birewrite whose :name collides with an installed rule of the same ruleset
+            // while head or right-hand side DIFFER: rejected (RuleAlreadyExists) — the installed rule
+            // must keep firing and the rejected one must not exist. Probes make the body match, run the
+            // ruleset and read the tables both rules write.
+            if env.rules.is_empty() {
+                return None;
+            }
+            let old = env.rules[r.below(env.rules.len())].clone();
+            let mut next = *m;
+            let res = match &old {
+                Cmd::Rule(k, rs, body, head) => {
+                    // variable sorts from the body
+                    let mut vars: Vec<(Name, Name)> = Vec::new();
+                    for f in body {
+                        let (outv, call) = match f {
+                            Fact::Eq(Expr::Var(v), c) => (Some(*v), c),
+                            Fact::Holds(c) => (None, c),
+                            _ => continue,
+                        };
+                        if let Expr::Call(fname, args) = call {
+                            if let Some(sig) = env.funcs.iter().find(|g| g.name == *fname) {
+                                for (a, s) in args.iter().zip(sig.ins.iter()) {
+                                    if let Expr::Var(v) = a {
+                                        vars.push((*v, *s));
+                                    }
+                                }
+                                if let Some(v) = outv {
+                                    if !sig.rel {
+                                        vars.push((v, sig.out));
+                                    }
+                                }
+                            }
+                        }
+                    }
+                    // a different head: insert into some constructor / relation
+                    let cs: Vec<&FSig> = env.funcs.iter().filter(|f| f.ctor).collect();
+                    let mut new_head = None;
+                    for t in 0..cs.len().min(8) {
+                        let g = cs[(r.below(cs.len()) + t) % cs.len()];
+                        let args: Option<Vec<Expr>> = g
+                            .ins
+                            .iter()
+                            .map(|s| {
+                                let c: Vec<Name> = vars.iter().filter(|(_, vs)| vs == s).map(|(v, _)| *v).collect();
+                                if !c.is_empty() && r.chance(2, 3) {
+                                    Some(Expr::Var(*r.pick(&c)))
+                                } else {
+                                    env.ground(r, *s, 1)
+                                }
+                            })
+                            .collect();
+                        if let Some(a) = args {
+                            let act = Action::Do(Expr::Call(g.name, a));
+                            if !head.contains(&act) {
+                                new_head = Some((act, g.name));
+                                break;
+                            }
+                        }
+                    }
+                    let (act, gname) = new_head?;
+                    let mut probes = instantiate_body(env, r, body).unwrap_or_default();
+                    probes.push(Cmd::Run(*rs, 2));
+                    probes.push(Cmd::PrintSize(gname));
+                    for a in head {
+                        match a {
+                            Action::Do(Expr::Call(h, _)) | Action::Set(h, _, _) => probes.push(Cmd::PrintSize(*h)),
+                            _ => {}
+                        }
+                    }
+                    if r.chance(1, 3) {
+                        // the colliding declaration is a rewrite carrying the rule's name
+                        match rewrite_sides(env, r, &mut next, None) {
+                            Some((lhs, rhs, false)) => {
+                                if let Some(g) = ground_pattern(env, r, &lhs) {
+                                    probes.insert(0, g);
+                                }
+                                Some(Mutation { class, sub: "dup-rule-name/rewrite-vs-rule", bad: Cmd::Rewrite { id: *k, rs: *rs, lhs, rhs, bi: false }, probes })
+                            }
+                            _ => Some(Mutation { class, sub: "dup-rule-name/rule", bad: Cmd::Rule(*k, *rs, body.clone(), vec![act]), probes }),
+                        }
+                    } else {
+                        Some(Mutation { class, sub: "dup-rule-name/rule", bad: Cmd::Rule(*k, *rs, body.clone(), vec![act]), probes })
+                    }
+                }
+                Cmd::Rewrite { id, rs, lhs, rhs, bi } => {
+                    let (l2, r2, _) = rewrite_sides(env, r, &mut next, Some((rhs, *bi)))?;
+                    let mut probes = Vec::new();
+                    if let Some(g) = ground_pattern(env, r, lhs) {
+                        probes.push(g);
+                    }
+                    if let Some(g) = ground_pattern(env, r, &l2) {
+                        probes.push(g);
+                    }
+                    probes.push(Cmd::Run(*rs, 2));
+                    for e in [lhs, &l2] {
+                        if let Expr::Call(c, _) = e {
+                            probes.push(Cmd::PrintSize(*c));
+                        }
+                    }
+                    for e in [rhs, &r2] {
+                        if let Expr::Call(c, _) = e {
+                            probes.push(Cmd::PrintSize(*c));
+                        }
+                    }
+                    Some(Mutation {
+                        class,
+                        sub: if *bi { "dup-rule-name/birewrite" } else { "dup-rule-name/rewrite" },
+                        bad: Cmd::Rewrite { id: *id, rs: *rs, lhs: l2, rhs: r2, bi: *bi },
+                        probes,
+                    })
+                }
+                _ => None,
+            };
+            *m = next;
+            res
+        }
+        "dup-rule-name" => {
+            // a rule / rewrite / birewrite whose :name collides with an installed rule of the same ruleset
+            // while head or right-hand side DIFFER: rejected (RuleAlreadyExists) — the installed rule
+            // must keep firing and the rejected one must not exist. Probes make the body match, run the
+            // ruleset and read the tables both rules write.
+            if env.rules.is_empty() {
+                return None;
+            }
+            let old = env.rules[r.below(env.rules.len())].clone();
+            let mut next = *m;
+            let res = match &old {
+                Cmd::Rule(k, rs, body, head) => {
+                    // variable sorts from the body
+                    let mut vars: Vec<(Name, Name)> = Vec::new();
+                    for f in body {
+                        let (outv, call) = match f {
+                            Fact::Eq(Expr::Var(v), c) => (Some(*v), c),
+                            Fact::Holds(c) => (None, c),
+                            _ => continue,
+                        };
+                        if let Expr::Call(fname, args) = call {
+                            if let Some(sig) = env.funcs.iter().find(|g| g.name == *fname) {
+                                for (a, s) in args.iter().zip(sig.ins.iter()) {
+                                    if let Expr::Var(v) = a {
+                                        vars.push((*v, *s));
+                                    }
+                                }
+                                if let Some(v) = outv {
+                                    if !sig.rel {
+                                        vars.push((v, sig.out));
+                                    }
+                                }
+                            }
+                        }
+                    }
+                    // a different head: insert into some constructor / relation
+                    let cs: Vec<&FSig> = env.funcs.iter().filter(|f| f.ctor).collect();
+                    let mut new_head = None;
+                    for t in 0..cs.len().min(8) {
+                        let g = cs[(r.below(cs.len()) + t) % cs.len()];
+                        let args: Option<Vec<Expr>> = g
+                            .ins
+                            .iter()
+                            .map(|s| {
+                                let c: Vec<Name> = vars.iter().filter(|(_, vs)| vs == s).map(|(v, _)| *v).collect();
+                                if !c.is_empty() && r.chance(2, 3) {
+                                    Some(Expr::Var(*r.pick(&c)))
+                                } else {
+                                    env.ground(r, *s, 1)
+                                }
+                            })
+                            .collect();
+                        if let Some(a) = args {
+                            let act = Action::Do(Expr::Call(g.name, a));
+                            if !head.contains(&act) {
+                                new_head = Some((act, g.name));
+                                break;
+                            }
+                        }
+                    }
+                    let (act, gname) = new_head?;
+                    let mut probes = instantiate_body(env, r, body).unwrap_or_default();
+                    probes.push(Cmd::Run(*rs, 2));
+                    probes.push(Cmd::PrintSize(gname));
+                    for a in head {
+                        match a {
+                            Action::Do(Expr::Call(h, _)) | Action::Set(h, _, _) => probes.push(Cmd::PrintSize(*h)),
+                            _ => {}
+                        }
+                    }
+                    if r.chance(1, 3) {
+                        // the colliding declaration is a rewrite carrying the rule's name
+                        match rewrite_sides(env, r, &mut next, None) {
+                            Some((lhs, rhs, false)) => {
+                                if let Some(g) = ground_pattern(env, r, &lhs) {
+                                    probes.insert(0, g);
+                                }
+                                Some(Mutation { class, sub: "dup-rule-name/rewrite-vs-rule", bad: Cmd::Rewrite { id: *k, rs: *rs, lhs, rhs, bi: false }, probes })
+                            }
+                            _ => Some(Mutation { class, sub: "dup-rule-name/rule", bad: Cmd::Rule(*k, *rs, body.clone(), vec![act]), probes }),
+                        }
+                    } else {
+                        Some(Mutation { class, sub: "dup-rule-name/rule", bad: Cmd::Rule(*k, *rs, body.clone(), vec![act]), probes })
+                    }
+                }
+                Cmd::Rewrite { id, rs, lhs, rhs, bi } => {
+                    let (l2, r2, _) = rewrite_sides(env, r, &mut next, Some((rhs, *bi)))?;
+                    let mut probes = Vec::new();
+                    if let Some(g) = ground_pattern(env, r, lhs) {
+                        probes.push(g);
+                    }
+                    if let Some(g) = ground_pattern(env, r, &l2) {
+                        probes.push(g);
+                    }
+                    probes.push(Cmd::Run(*rs, 2));
+                    for e in [lhs, &l2] {
+                        if let Expr::Call(c, _) = e {
+                            probes.push(Cmd::PrintSize(*c));
+                        }
+                    }
+                    for e in [rhs, &r2] {
+                        if let Expr::Call(c, _) = e {
+                            probes.push(Cmd::PrintSize(*c));
+                        }
+                    }
+                    Some(Mutation {
+                        class,
+                        sub: if *bi { "dup-rule-name/birewrite" } else { "dup-rule-name/rewrite" },
+                        bad: Cmd::Rewrite { id: *id, rs: *rs, lhs: l2, rhs: r2, bi: *bi },
+                        probes,
+                    })
+                }
+                _ => None,
+            };
+            *m = next;
+            res
         }
         _ => None,
     }
